@@ -19,7 +19,8 @@ def bmStr : Option Int → String
 /-- bookmark bytes from an op line → what `decodeBookmark` sees -/
 def parseBm (hex : String) : BookmarkArg :=
   let bs := (hexToBytes hex).getD []
-  { len := bs.length, cookieOk := bs.take 8 == placeholderCookie, pos := toI64 (fromBe64 (bs.drop 8)) }
+  -- `binary.BigEndian.Uint64(bookmark[8:])` reads the 8 bytes after the cookie, whatever follows them
+  { len := bs.length, cookieOk := bs.take 8 == placeholderCookie, pos := toI64 (fromBe64 ((bs.drop 8).take 8)) }
 
 def evStr (e : Event) : String :=
   match e.typ with
